@@ -355,7 +355,19 @@ func serverForwardResponses(
 			return fmt.Errorf("failed to peek HTTP response: %w", err)
 		}
 
-		req, ok := <-reqCh
+		// A request is announced on reqCh before it is written out, so response bytes
+		// that arrive while no request is outstanding were not asked for. Do not wait
+		// for the next request: the request forwarding routine may itself be blocked
+		// writing to the pipe, which nobody drains until we return.
+		var (
+			req *http.Request
+			ok  bool
+		)
+		select {
+		case req, ok = <-reqCh:
+		default:
+			return errPayloadAfterFinalResponse
+		}
 		if !ok {
 			return errPayloadAfterFinalResponse
 		}
